@@ -18,3 +18,26 @@ pub fn tag_key_nopad(g: u16, e: u16) -> String {
 pub fn selector_nested(tag: u32, item: u32) -> String {
     format!("{tag}[{item}]")
 }
+// PS3.5 6.2: DA = YYYYMMDD (and its leading parts for range matching / partial precision),
+// TM = HHMMSS.FFFFFF (and its leading parts). Fixed widths: 4, 2, 2 and 2, 2, 2, '.', fraction digits.
+pub fn da_y(y: &u16) -> String {
+    format!("{y:04}")
+}
+pub fn da_ym(y: &u16, m: &u8) -> String {
+    format!("{y:04}{m:02}")
+}
+pub fn da_ymd(y: &u16, m: &u8, d: &u8) -> String {
+    format!("{y:04}{m:02}{d:02}")
+}
+pub fn tm_h(h: &u8) -> String {
+    format!("{h:02}")
+}
+pub fn tm_hm(h: &u8, m: &u8) -> String {
+    format!("{h:02}{m:02}")
+}
+pub fn tm_hms(h: &u8, m: &u8, s: &u8) -> String {
+    format!("{h:02}{m:02}{s:02}")
+}
+pub fn tm_hmsf(h: &u8, m: &u8, s: &u8, frac: &str) -> String {
+    format!("{h:02}{m:02}{s:02}.{}", frac)
+}
